@@ -1,0 +1,6 @@
+//go:build !verif
+
+package redis
+
+// verifPoint is a no-op in normal builds (see verif_on.go).
+func verifPoint(string) {}
